@@ -26,6 +26,7 @@ CONSTANTS
   NShards = {nshards}
   EvalElifFirst = FALSE
   Rich = {rich}
+  Skeleton = FALSE
 CHECK_DEADLOCK FALSE
 """
 INVS = "INVARIANT ImplMatchesRef\nINVARIANT RefTotal\nINVARIANT DefsOnlyWhereReached\n"
@@ -336,6 +337,15 @@ def run(ctx):
     traces += traces2
     dirs += dirs2
     # ---- G3: larger programs by simulation ------------------------------------------------
+    # skeleton programs: constant conditions only, no definitions - every chain STRUCTURE of up to 6 (7) directives
+    # and nesting 3, e.g. an #elif chain nested in a taken group of a chain that still has an #else to come
+    cfgk = CFG.format(maxdir=6 if q else 7, maxnest=3, shard="@SHARD@", nshards="@NSHARDS@", rich="FALSE") \
+        .replace("Skeleton = FALSE", "Skeleton = TRUE")
+    skel = runner.sharded_tlc(ctx, "GenC01", cfgk, 8, "GenC01_skeleton", timeout=3000)
+    ctx.cov["skeleton_programs"] = len(skel)
+    traces4, dirs4 = replay_all(ctx, skel, want_trace=(200 if q else 100), label="skeleton")
+    traces += traces4
+    dirs += dirs4
     cfgs = CFG.format(maxdir=12 if q else 16, maxnest=4, shard=0, nshards=1, rich="TRUE")
     sim = runner.sharded_tlc(ctx, "GenC01", cfgs, 8 if q else 16, "GenC01_sim", timeout=600,
                              simulate=f"num={10 if q else 100}", depth=40, seed=ctx.seed + 1)
